@@ -264,7 +264,29 @@ def term_prims(prog):
     def diverge(ip, st, args, info):
         return [(st, "panic", "alloc error")]
 
+    def elementwise(byte_name):
+        # p.add(n) / p.sub(n) on a pointer to u8 is p.byte_add(n) / p.byte_sub(n)
+        def h(ip, st, args, info):
+            ga = [prog.ty_s(a["ty"]) for a in info["f"].get("args", []) if "ty" in a]
+            if ga and ga[0] in ("u8", "i8"):
+                return [(st, "ret", ("app", byte_name, tuple(val(ip, st, a) for a in args)))]
+            return [(st, "ret", ("app", info["def"], tuple(val(ip, st, a) for a in args)))]
+        return h
+
     P = {}
+    for pre in ("core::ptr::non_null::NonNull::", "core::ptr::mut_ptr::<impl *mut T>::", "core::ptr::const_ptr::<impl *const T>::"):
+        P[pre + "add"] = elementwise("byte_add")
+        P[pre + "sub"] = elementwise("byte_sub")
+        P[pre + "byte_add"] = op("byte_add")
+        P[pre + "byte_sub"] = op("byte_sub")
+        P[pre + "write"] = write
+        P[pre + "read"] = read
+    P["core::ptr::write"] = write
+    P["core::ptr::read"] = read
+    for n in ("core::ptr::from_ref", "core::ptr::from_mut", "core::ptr::non_null::NonNull::from_mut",
+              "<core::ptr::non_null::NonNull as core::convert::From<&T>>::from",
+              "<core::ptr::non_null::NonNull as core::convert::From<&mut T>>::from"):
+        P[n] = ident
     for n in ("core::option::Option::expect", "core::option::Option::unwrap", "core::result::Result::expect",
               "core::result::Result::unwrap", "core::option::Option::unwrap_unchecked"):
         P[n] = unwrap
